@@ -91,6 +91,10 @@ class EmptyModel:
         return "Empty@%d" % self.lineno
 
 
+class TupModel(tuple):
+    """Model of a plain tuple value (a list's model is a plain tuple)."""
+
+
 class PairRet(tuple):
     """A (key, value) pair returned by pop()/popitem() in the model."""
 
@@ -243,6 +247,12 @@ class Machine:
             if "list" in spec:
                 b = [self.build(s) for s in spec["list"]]
                 return [r for r, _ in b], tuple(m for _, m in b)
+            if "tup" in spec:
+                # a plain tuple (a caller's row of numbers): no encoder
+                # writes it, and none may turn it into something else
+                b = [self.build(s) for s in spec["tup"]]
+                return (tuple(r for r, _ in b),
+                        TupModel(m for _, m in b))
             if "set" in spec:
                 b = [self.build(s) for s in spec["set"]]
                 return (frozenset(r for r, _ in b),
@@ -276,6 +286,11 @@ class Machine:
         if isinstance(mv, MC):
             ent = self.reg.get(mv.id)
             return ent is not None and ent[0] is rv
+        if isinstance(mv, TupModel):
+            return (type(rv) is tuple and len(rv) == len(mv) and
+                    all(self.same(a, b) for a, b in zip(rv, mv)))
+        if type(rv) is tuple:
+            return False
         if isinstance(rv, OrderedMultiDict):
             return False
         if isinstance(mv, EmptyModel):
@@ -320,6 +335,8 @@ class Machine:
             return self.reg[i][1]
         if isinstance(rv, list):
             return tuple(self.model_of(x) for x in rv)
+        if type(rv) is tuple:
+            return TupModel(self.model_of(x) for x in rv)
         if isinstance(rv, (set, frozenset)):
             return frozenset(rv)
         if isinstance(rv, UserQty):
